@@ -164,7 +164,8 @@ TCPREUSE = {0: "client speaks HTTP (no listener for that type)", 1: "client send
             5: "client sends one byte and stalls (identify timeout)", 6: "client sends nothing (identify timeout)", 7: "client speaks multistream (accepted, closed by the harness)",
             99: "summary after all attempts (usage must be zero)"}
 QUICSC = {0: "none (connection established, closed by the harness)", 1: "server gater rejects at InterceptAccept", 2: "server gater rejects at InterceptSecured",
-          3: "client gater rejects at InterceptSecured", 4: "server resource manager refuses the inbound connection", 5: "dial for the wrong peer ID"}
+          3: "client gater rejects at InterceptSecured", 4: "server resource manager refuses the inbound connection", 5: "dial for the wrong peer ID",
+          6: "hole punch given up exactly while the peer's connection is accepted and handed to the attempt (raw_closed 0 = the connection came out of neither Dial nor Accept)"}
 
 
 def describe(t):
